@@ -652,7 +652,7 @@ fn folds_int<D: Dom>(rep: &mut Report) {
 /// which the independent array model predicts.
 fn programs(rep: &mut Report) {
     type T = Ex;
-    let depth = rep.pick(3, 5);
+    let depth = rep.pick(3, 6);
     let m0 = mat_from_r::<T, 3>(&[(1, 1), (2, 1), (0, 1), (-1, 1), (1, 2), (3, 1), (2, 1), (0, 1), (-2, 1)]);
     let n0 = mat_from_r::<T, 3>(&[(0, 1), (1, 1), (-1, 1), (3, 2), (2, 1), (1, 1), (-2, 1), (1, 1), (1, 2)]);
     let v0: [T; 3] = vec_from_r(&[(1, 1), (-2, 1), (3, 2)]);
